@@ -73,6 +73,7 @@ const (
 	kLMCall               // (lm k0)
 	kFunArg               // (funcall (function n) k0)
 	kPrefix               // (funcall #^(list % n) k0)
+	kDotimesC             // (dotimes (n k0 [kR]) [kB]): full control sequence; q&2 = result form present, q&1 = body present; kids = count, result?, body?
 )
 
 type term struct {
@@ -91,6 +92,7 @@ type gcfg struct {
 	MaxW        int      // node-count bound of a whole program
 	Let2        bool     // two-binding let / let*
 	Dotimes     bool
+	DotimesCtl  bool // dotimes with a full control sequence (var COUNT [RESULT]): COUNT any expression of the scope around the loop, RESULT any expression of the loop's scope; body empty or one statement
 	Macrolet    bool
 	GSet        bool   // (set 'g v) assignments inside expressions
 	GSetExpr    bool   // (set 'g v) also in value position (it returns v)
@@ -463,6 +465,29 @@ func (g *gen) genExpr(ctx int, w int, sc scope) []*term {
 			}
 		}
 	}
+	if g.cfg.DotimesCtl {
+		// (dotimes (n A R)) and (dotimes (n A R) S): with a result form the loop is an expression; R (and S) belong
+		// to the loop's scope, where n is the loop variable (it holds the number of turns when R is evaluated)
+		for n := 0; n < nn; n++ {
+			inner := sc.bind(n)
+			split2(w-1, func(a, b int) {
+				for _, cnt := range g.list(ctx, ntArg, a, sc) {
+					for _, res := range g.list(ctx, ntArg, b, inner) {
+						out = append(out, &term{k: kDotimesC, n: int8(n), q: 2, kids: []*term{cnt, res}})
+					}
+				}
+			})
+			split3(w-1, func(a, b, cc int) {
+				for _, cnt := range g.list(ctx, ntArg, a, sc) {
+					for _, res := range g.list(ctx, ntArg, b, inner) {
+						for _, s := range g.list(ctx, ntStmt, cc, inner) {
+							out = append(out, &term{k: kDotimesC, n: int8(n), q: 3, kids: []*term{cnt, res, s}})
+						}
+					}
+				}
+			})
+		}
+	}
 	if g.cfg.FunArg {
 		for n := 0; n < nn; n++ {
 			if bound&(1<<uint(n)) == 0 {
@@ -523,6 +548,23 @@ func (g *gen) genStmt(ctx int, w int, sc scope) []*term {
 			for _, s := range g.list(ctx, ntStmt, w-1, inner) {
 				out = append(out, &term{k: kDotimes, n: int8(n), kids: []*term{s}})
 			}
+		}
+	}
+	if g.cfg.DotimesCtl {
+		// (dotimes (n A)) and (dotimes (n A) S): the count A is an expression of the scope AROUND the loop (it is
+		// evaluated before the loop variable exists), the body statement S one of the loop's scope
+		for n := 0; n < nn; n++ {
+			inner := sc.bind(n)
+			for _, a := range g.list(ctx, ntArg, w-1, sc) {
+				out = append(out, &term{k: kDotimesC, n: int8(n), q: 0, kids: []*term{a}})
+			}
+			split2(w-1, func(a, b int) {
+				for _, cnt := range g.list(ctx, ntArg, a, sc) {
+					for _, s := range g.list(ctx, ntStmt, b, inner) {
+						out = append(out, &term{k: kDotimesC, n: int8(n), q: 1, kids: []*term{cnt, s}})
+					}
+				}
+			})
 		}
 	}
 	return out
@@ -1039,6 +1081,21 @@ func (r *renderer) term(t *term) {
 		w("(dotimes (" + r.name(t.n) + " 2) ")
 		r.term(t.kids[0])
 		w(")")
+	case kDotimesC:
+		w("(dotimes (" + r.name(t.n) + " ")
+		r.term(t.kids[0])
+		next := 1
+		if t.q&2 != 0 {
+			w(" ")
+			r.term(t.kids[next])
+			next++
+		}
+		w(")")
+		if t.q&1 != 0 {
+			w(" ")
+			r.term(t.kids[next])
+		}
+		w(")")
 	case kMacrolet:
 		free := ""
 		if t.q >= 0 {
@@ -1085,7 +1142,7 @@ func termHasKey(t *term) bool {
 	return false
 }
 
-var allTags = []string{"&key", "&optional", "&rest", "callkey", "defmacro", "defmacro-free", "defmacro-free-eq-param", "defmacro-name-as-data", "defmacro-qfree", "dotimes", "export", "export-in-other-file", "export-list", "export-string",
+var allTags = []string{"&key", "&optional", "&rest", "callkey", "defmacro", "defmacro-free", "defmacro-free-eq-param", "defmacro-name-as-data", "defmacro-qfree", "dotimes", "dotimes-count-shadow", "dotimes-ctl", "dotimes-result", "dotimes-result-ref", "export", "export-in-other-file", "export-list", "export-string",
 	"files", "funarg", "gset", "let-dup", "let-value-closure", "macrolet", "macrolet-free", "nested-set", "pkg", "prefix", "qref", "qref-in-brackets", "quasiquote-data", "redefine", "use", "use-with-local-export"}
 
 func termTags(t *term, tags map[string]bool, inBrackets bool) {
@@ -1097,6 +1154,19 @@ func termTags(t *term, tags map[string]bool, inBrackets bool) {
 		tags["callkey"] = true
 	case kDotimes:
 		tags["dotimes"] = true
+	case kDotimesC:
+		tags["dotimes-ctl"] = true
+		if freeRefs(t.kids[0])&(1<<uint(t.n)) != 0 {
+			// the count mentions the very name the loop binds: there it means the binding AROUND the loop
+			tags["dotimes-count-shadow"] = true
+		}
+		if t.q&2 != 0 {
+			if freeRefs(t.kids[1]) != 0 {
+				tags["dotimes-result-ref"] = true // the result form refers to a name bound outside it (loop variable included)
+			} else {
+				tags["dotimes-result"] = true // a closed result form (literal, or only its own binders)
+			}
+		}
 	case kFunArg:
 		tags["funarg"] = true
 	case kPrefix:
@@ -1187,6 +1257,16 @@ func closureSees(t *term, names uint8, inClosure bool) bool {
 			closureSees(t.kids[2], without(t.n, t.p), inClosure)
 	case kDotimes:
 		return closureSees(t.kids[0], without(t.n), inClosure)
+	case kDotimesC:
+		if closureSees(t.kids[0], names, inClosure) {
+			return true
+		}
+		for _, k := range t.kids[1:] {
+			if closureSees(k, without(t.n), inClosure) {
+				return true
+			}
+		}
+		return false
 	case kMacrolet:
 		if inClosure && has(t.q) {
 			return true
@@ -1198,6 +1278,53 @@ func closureSees(t *term, names uint8, inClosure bool) bool {
 		}
 	}
 	return false
+}
+
+// freeRefs is the set of pool names a term refers to (as variable, function, assignment target or free name of a
+// macrolet template) without binding them itself.  Package-qualified references and data (keywords, quoted symbols
+// and lists) are not bare references.
+func freeRefs(t *term) uint8 {
+	if t == nil {
+		return 0
+	}
+	bit := func(n int8) uint8 {
+		if n < 0 {
+			return 0
+		}
+		return 1 << uint(n)
+	}
+	kid := func(i int) uint8 { return freeRefs(t.kids[i]) }
+	switch t.k {
+	case kRef, kCall0:
+		return bit(t.n)
+	case kCall, kCallKey, kSetBang, kFunArg, kPrefix, kGSet:
+		return bit(t.n) | kid(0)
+	case kLet:
+		return kid(0) | kid(1)&^bit(t.n)
+	case kLet2:
+		return kid(0) | kid(1) | kid(2)&^(bit(t.n)|bit(t.p))
+	case kLetS2:
+		return kid(0) | kid(1)&^bit(t.n) | kid(2)&^(bit(t.n)|bit(t.p))
+	case kFlet:
+		return kid(0)&^bit(t.p) | kid(1)&^bit(t.n)
+	case kLabels:
+		return kid(0)&^(bit(t.n)|bit(t.p)) | kid(1)&^bit(t.n)
+	case kLambda, kDotimes:
+		return kid(0) &^ bit(t.n)
+	case kDotimesC:
+		m := kid(0)
+		for i := 1; i < len(t.kids); i++ {
+			m |= kid(i) &^ bit(t.n)
+		}
+		return m
+	case kMacrolet:
+		return bit(t.q) | kid(0)
+	}
+	var m uint8
+	for i := range t.kids {
+		m |= kid(i)
+	}
+	return m
 }
 
 func termFeatures(t *term, f *uint32) {
@@ -1497,6 +1624,9 @@ func (g *gen) enumerate(visit func(p program)) (skeletons int64) {
 				p := g.render(its)
 				if g.cfg.NeedGSet && !strings.Contains(","+p.Tags+",", ",gset,") {
 					return
+				}
+				if g.cfg.DotimesCtl && !strings.Contains(","+p.Tags+",", ",dotimes-ctl,") {
+					return // sessions without such a loop are enumerated by the other families
 				}
 				visit(p)
 				return
